@@ -408,17 +408,30 @@ func Generic(e *vs.Exec) []Viol { return generic(e) }
 // recorded in the evidence (model_divergences), not raised as a violation.
 func Conformance(r *vk.Run) {
 	bin := os.Getenv("VERIF_REAL_BIN")
+	build := "amd64"
+	if os.Getenv("VERIF_IS_386") != "" {
+		bin, build = os.Getenv("VERIF_REAL_BIN_386"), "GOARCH=386"
+	}
 	if bin == "" {
 		return
 	}
 	cmd := exec.Command(bin)
-	var out bytes.Buffer
-	cmd.Stdout = &out
+	var out, errOut bytes.Buffer
+	cmd.Stdout, cmd.Stderr = &out, &errOut
 	done := make(chan error, 1)
 	go func() { done <- cmd.Run() }()
 	select {
 	case err := <-done:
 		if err != nil {
+			// the unmodified library crashing on real sockets is not a disagreement between model and
+			// kernel: it is a crash of the library, reported as such
+			if text := errOut.String(); (strings.Contains(text, "panic:") || strings.Contains(text, "fatal error:")) && strings.Contains(text, "uhppote-core/") {
+				if len(text) > 1500 {
+					text = text[:1500]
+				}
+				r.Violation(r.ID+"/real-sockets/panic", fmt.Sprintf("the unmodified library (%s build) crashed while the loopback replay of this property's scenarios ran on real sockets: %s", build, text), "real-sockets", map[string]any{"build": build})
+				return
+			}
 			r.Set("loopback_conformance", "replay binary failed: "+err.Error())
 			return
 		}
